@@ -11,17 +11,27 @@ import JominiModel.Proofs.WriterJ
 import JominiModel.Proofs.WriterFullWalk
 import JominiModel.Proofs.WriterFullParse
 import JominiModel.Proofs.WriterSinkTape
+import JominiModel.Proofs.WriterExamples
 /-
 C14 — Writing a parsed tape and re-parsing reproduces the same structure; writing is idempotent.
-Only property theorems live here; helper lemmas are in `Proofs/Writer.lean`.
+Only property theorems live here; helper lemmas are in `Proofs/Writer*.lean`, the exclusion predicate
+`FPlainF` in `Spec/WriterFull.lean`.
 
 Clauses and where they are decided
   * every indent configuration, nesting past the 16-byte cache .. C14_indent (all depths, factors, bytes)
-  * writing depends on the tape only modulo offsets ............. C14_offsets_irrelevant
-  * write-after-parse is a fixed point .......................... C14_idempotent (relative to the round trip)
-  * parse (write (parse x)) ≃ parse x ........................... growth theorem C14_roundtrip, NOT proved
-    (needs the tape parser model of the text-tape slice); decided on the implementation by the L3
-    oracle of harness/src/props/c14.rs under all 20 indent configurations
+  * writing depends on the tape only modulo offsets ............. C14_offsets_irrelevant (true by construction
+    of the model — its tokens carry no offsets; tied to the code by the `wtape` correspondence only)
+  * parse (write (parse x)) ≃ parse x, and write-after-parse is a fixed point:
+      C14_roundtrip_full — every document of the text-tape slice's full document type `FFields` (objects,
+      arrays, headers, parameter blocks, arrays that turn into key-value lists, …) under every valid layout and
+      indent configuration, end to end through the text-tape parser model, outside eight exclusions
+      (five recorded findings, one shape outside the property's quantifier, three further recorded findings);
+      C14_nested_roundtrip (`JFields`), C14_roundtrip_flat / _nested / _arrays / _containers are earlier
+      instances; C14_idempotent is the abstract step from the round trip to idempotence
+  * the recorded findings on the models ......................... C14_known_* (four negative theorems)
+  * I/O errors of the sink ...................................... C14_failing_sink
+  * tie to the real code: differential run `wtape` / `wtapew`, and the L3 round-trip oracle of
+    harness/src/props/c14.rs under all 20 indent configurations (known findings under their own kinds)
 -/
 namespace Jomini.Props.C14
 open Jomini Jomini.Writer Jomini.Writer.Spec
@@ -45,8 +55,10 @@ example :
   constructor <;> decide +kernel
 
 /-- `write_tape` looks at the tokens only: two tapes that differ in nothing but the positions
-of their scalars in the parsed input are written identically (in the model this holds by
-construction: `Tok` carries the scalar bytes, not a position). -/
+of their scalars in the parsed input are written identically.  TRUE BY DEFINITION OF THE MODEL: `writeTapeP := writeTape ∘ erasePos` and `Tok`
+carries the scalar bytes, not a position, so this theorem says nothing about the code by itself; that the
+real `write_tape` ignores offsets is carried by the `wtape` correspondence (same tape under many layouts,
+hence many offsets, one model answer). -/
 theorem C14_offsets_irrelevant (t₁ t₂ : List PTok) (s : State) (h : erasePos t₁ = erasePos t₂) :
     writeTapeP t₁ s = writeTapeP t₂ s := by
   unfold writeTapeP; rw [h]
@@ -56,7 +68,10 @@ example : erasePos [⟨.unquoted [97], 0, 1⟩, ⟨.unquoted [98], 2, 1⟩] = er
 
 /-- Idempotence from the round trip: whatever the parser is, if the text written for a tape
 parses back to that tape modulo offsets, then writing the re-parsed tape produces exactly the same
-text again (a fixed point of write-after-parse), under the same indent configuration. -/
+text again (a fixed point of write-after-parse), under the same indent configuration.  This is the
+ABSTRACT step only: the `parse` argument is unused (any function would do) and the content is
+`C14_offsets_irrelevant`, i.e. a property of the model's definition.  The idempotence statement with the
+real parser model is the last conjunct of `C14_roundtrip_full` / `C14_nested_roundtrip`. -/
 theorem C14_idempotent (parse : Bytes → Option (List PTok)) (t t' : List PTok) (s₀ s₁ : State)
     (hw : writeTapeP t s₀ = .ok s₁) (_hp : parse s₁.out = some t') (hrt : erasePos t' = erasePos t) :
     writeTapeP t' s₀ = .ok s₁ := by
@@ -428,7 +443,12 @@ leaves out, and three shapes found while proving this theorem (each witnessed on
   7. NEW two adjacent operator tokens in the array part written in mixed mode (`gluesOp`):
      `{ 1 b = = c }` is written `b==c`;
   8. NEW the bare scalar `?` followed by `=` / `==` directly behind the first element (`bareQuestion`):
-     `{ 1 ? = b }` is written `1 ?=b`, read back as the object `1 ?= b`. -/
+     `{ 1 ? = b }` is written `1 ?=b`, read back as the object `1 ?= b`.
+
+Exclusion → oracle kind in known_findings.txt: 1 `roundtrip-param-scalar`, 2 `roundtrip-mixed-nested-operator`,
+3 `roundtrip-bom-key`, 4 `roundtrip-empty-first-element` + `roundtrip-header-empty-body`, 5 none (outside the
+quantifier; counted `not-preserved:mixed-object`), 6 `roundtrip-param-header`, 7 `roundtrip-mixed-adjacent-operators`,
+8 `roundtrip-mixed-bare-question-key`. -/
 theorem C14_roundtrip_full (d : TextTape.FFields) (gt : Bytes) (c : UInt8) (f : Nat)
     (hc : TextTape.isBlank c = true) (hgt : TextTape.Blank gt) (hv : TextTape.FValidF d gt)
     (hplain : FPlainF false d) (hb : TextTape.hasBom (TextTape.frenderF d ++ gt) = false)
@@ -477,6 +497,39 @@ example : ∃ T₀ s T,
         (fun s => TextTape.hasBom s.out) = some false := by decide +kernel
     rw [h2] at this
     simpa [Except.toOption] using this
+
+/-- `a={ [[p] k=v ] b=rgb{ 1 } [[q] r ] }` (object-valued parameter block as first field, header field,
+trailing scalar-valued parameter block): `FValidF`, `FPlainF`, both BOM conditions are PROVED
+(Proofs/WriterExamples.lean) and `C14_roundtrip_full` applies -/
+example : ∃ T₀ s T, TextTape.parse (TextTape.frenderF WriterExamples.dParams ++ [10]) = .ok T₀ false ∧
+      writeTape (T₀.map ofTT) (State.init 9 1) = .ok s ∧ TextTape.parse s.out = .ok T false ∧
+      T.map TextTape.Tok.erase = T₀.map TextTape.Tok.erase ∧ writeTape (T.map ofTT) (State.init 9 1) = .ok s := by
+  have hgt : TextTape.Blank [10] := .ws 10 [] (by decide +kernel) .nil
+  refine C14_roundtrip_full WriterExamples.dParams [10] 9 1 (by decide +kernel) hgt WriterExamples.dParams_valid
+    WriterExamples.dParams_plain (by decide +kernel) ?_
+  intro T₀ s h1 h2
+  rw [TextTape.parse_full WriterExamples.dParams [10] hgt WriterExamples.dParams_valid (by decide +kernel)] at h1
+  cases h1
+  have : (writeTape ((TextTape.ftapeF WriterExamples.dParams 0 [10]).map ofTT) (State.init 9 1)).toOption.map
+      (fun s => TextTape.hasBom s.out) = some false := by decide +kernel
+  rw [h2] at this
+  simpa [Except.toOption] using this
+
+/-- … and so it does to `a={ b=rgb{ 1 } c={ x=y } } e={ 1 f=g {h=i} z }` (header as first field, an array that
+turns mixed with an object in its array part) -/
+example : ∃ T₀ s T, TextTape.parse (TextTape.frenderF WriterExamples.dMixed ++ [10]) = .ok T₀ false ∧
+      writeTape (T₀.map ofTT) (State.init 32 2) = .ok s ∧ TextTape.parse s.out = .ok T false ∧
+      T.map TextTape.Tok.erase = T₀.map TextTape.Tok.erase ∧ writeTape (T.map ofTT) (State.init 32 2) = .ok s := by
+  have hgt : TextTape.Blank [10] := .ws 10 [] (by decide +kernel) .nil
+  refine C14_roundtrip_full WriterExamples.dMixed [10] 32 2 (by decide +kernel) hgt WriterExamples.dMixed_valid
+    WriterExamples.dMixed_plain (by decide +kernel) ?_
+  intro T₀ s h1 h2
+  rw [TextTape.parse_full WriterExamples.dMixed [10] hgt WriterExamples.dMixed_valid (by decide +kernel)] at h1
+  cases h1
+  have : (writeTape ((TextTape.ftapeF WriterExamples.dMixed 0 [10]).map ofTT) (State.init 32 2)).toOption.map
+      (fun s => TextTape.hasBom s.out) = some false := by decide +kernel
+  rw [h2] at this
+  simpa [Except.toOption] using this
 
 /-- an object-valued and a trailing scalar-valued parameter block, a header field, an array that turns
 mixed with an object in its array part (`a={ [[p] k=v ] b=rgb{1} c={ 1 x=y { z=w } } [[q] r ] }`):
@@ -529,29 +582,13 @@ example : (writeTapeF 5 [.unquoted [97], .array 3 false, .unquoted [98], .end 1]
   decide +kernel
 
 /-
-Growth theorem (full statement kept).  `C14_roundtrip_full` proves it for every document of the
-text-tape slice's full document type `FFields` outside the listed exclusions (parameter blocks and
-arrays that turn into key-value lists included); `C14_nested_roundtrip` is its `JFields` instance;
-`C14_roundtrip_flat`, `C14_roundtrip_nested`, `C14_roundtrip_arrays` and `C14_roundtrip_containers`
-are its earlier instances; parameter blocks and mixed containers — where the two known findings live — are decided
-by the L3 oracle on the real code):
-
-  theorem C14_roundtrip (doc : Doc) (h : RoundTrippable doc) (layout : Layout) (c : UInt8) (f : Nat)
-      (hc : c = 32 ∨ c = 9) (hf : f ≤ 9) :
-      ∃ s, writeTape (tapeOf doc) (State.init c f) = .ok s ∧
-           (TextTape.parse s.out).map erasePos = some (tapeOf doc)
-
-  (same keys, operators, scalars, quoting and nesting; offsets ignored) where `tapeOf` is the
-  tape of the document under any layout (C01_faithful) and `RoundTrippable` excludes objects that
-  continue as a bare value list and headers with an empty body.  Missing: the tape parser model
-  (text-tape slice).  Until then the clause is decided on the real code by the L3 oracle
-  (`roundtrip`, `roundtrip-indent-config`, `roundtrip-output-does-not-parse`, `idempotent`).
-
-  The oracle currently finds two genuine violations inside the intended subset (kept out of the
-  `rt` stream, reported with witnesses):
-    * a scalar-valued parameter block followed by another field (`a={ [[p] v ] x=y }`),
-    * an object with non-`=` operators nested in an array that turned into a key-value list
-      (`a={ 1 k={ b>c } }` is written as `b>=c`).
+Status of the growth theorem `C14_roundtrip` (first stated in round 1 over an abstract `Doc` / `RoundTrippable`):
+it is PROVED as `C14_roundtrip_full`, with the text-tape slice's `FFields` as the document type, `FValidF` as
+"any layout", `TextTape.parse` as the parser and `FPlainF` as `RoundTrippable` — including parameter blocks and
+arrays that turn into key-value lists, which the property text names.  What remains outside is exactly the
+list of exclusions in its docstring, each a recorded finding with its own oracle kind or outside the property's
+quantifier; those are decided on the real code by the L3 oracle (`roundtrip`, `roundtrip-indent-config`,
+`roundtrip-output-does-not-parse`, `idempotent`, and the `roundtrip-*` kinds of known_findings.txt).
 -/
 
 end Jomini.Props.C14
